@@ -2,17 +2,9 @@
  * zero-energy pole collected separately (C14, C17); evaluation in frequency and imaginary time (C14).
  * Mutants and what is / is not proved: see the comment at the end of the file. */
 #include "../stubs/common.h"
-#ifdef VERIF_FP_IEEE
-/* ONLY harness h_SPTerm_tau_range is built with -DVERIF_FP_IEEE (bit-precise +,-,<,unary -).  Products and quotients of
- * symbolic doubles are beyond the SAT back end, and only their sign / a lower bound of their magnitude is needed: they go to
- * the contract stubs mul_c / div_c below (assumptions M1, M2 documented there). */
-#undef D_MUL
-#undef D_DIV
-double mul_c(double a, double b);
-double div_c(double a, double b);
-#define D_MUL(a, b) mul_c((a), (b))
-#define D_DIV(a, b) div_c((a), (b))
-#endif
+/* ONLY harness h_SPTerm_tau_range is built with -DVERIF_FP_IEEE (bit-precise + - < unary-minus): fprange.h then replaces
+ * D_MUL / D_DIV / exp by contract models (assumptions M1, M2, E1 there); without the flag it defines nothing. */
+#include "../stubs/fprange.h"
 #include "../stubs/cplx.h"
 #include "../stubs/sparse.h"
 #include "../stubs/dense.h"
@@ -27,11 +19,12 @@ typedef struct SPTerm SPTerm;
 //@struct Pomerol::SusceptibilityPart::Term
 //@struct Pomerol::FieldOperatorPart only=elementsColMajor,elementsRowMajor,Status
 //@struct Pomerol::HamiltonianPart only=Eigenvalues,Status
-//@struct Pomerol::DensityMatrixPart only=weights,beta
+//@struct Pomerol::DensityMatrixPart only=weights,beta,MatsubaraSpacing
+//@struct Pomerol::Thermal
 
 /* ---- TermList<Term>: monitor for add_term; Terms(z) / Terms(tau,beta) are opaque sums (the container itself -- merging of
  * like poles within 1e-8, dropping of negligible sums, the summation loop -- is TRUSTED here). */
-typedef struct TermListSP { unsigned long n_calls; long id; } TermListSP;
+typedef struct TermListSP { unsigned long n_calls; long id; double cmp_tol, neg_tol; /* tolerances of Term::Compare / Term::IsNegligible */ } TermListSP;
 struct SusceptibilityPart;
 struct SusceptibilityPart *g_self;   /* the object under verification (for the monitors) */
 long g_hits;                          /* number of add_term calls at the ghost pair (p,q) */
@@ -122,13 +115,12 @@ void TermListSP_add_term(TermListSP *tl, SPTerm t)
   __CPROVER_assert(g_last_ao == g_last_bo, "C14: term pairs row n of A with column n of B");
   __CPROVER_assert(Am->inner[ap] == Bm->inner[bp], "C14: term pairs A[n,m] with B[m,n] (coincident inner index)");
   long n = g_last_ao;
-  /* ... that is not a zero-energy pole, with the documented residue and pole */
-  __CPROVER_assert(!spec_is_zero_pole(n, ap), "C14: no term for a zero-energy pole");
+  /* ... with the documented residue and pole, which is not a zero-energy pole */
   cplx r = spec_residue_at(n, ap, bp);
   __CPROVER_assert(C_SAME(t.Residue, r), "C14: residue = A[n,m]*B[m,n]*(w_n-w_m)");
   __CPROVER_assert(D_SAME(t.Pole, spec_pole_at(n, ap)), "C14: pole = E_m - E_n");
   __CPROVER_assert(D_GT(c_abs(r), 1e-8), "C14: only residues above 1e-8 are kept");
-  __CPROVER_assert(SPTERM_POLE_OK(t.Pole), "C14: every stored term has |Pole| >= 1e-8 (pre-condition of Term::operator()(tau,beta))");
+  __CPROVER_assert(SPTERM_POLE_OK(t.Pole), "C14: no term for a zero-energy pole: every stored term has |Pole| >= 1e-8 (pre-condition of Term::operator()(tau,beta))");
   if (ap == Am->gpos && bp == Bm->gpos) g_hits++;
   tl->n_calls++;
   REACH("add_term");
@@ -180,8 +172,9 @@ __CPROVER_requires(g_zpw_bits == ZPW_BITS(self))
 __CPROVER_assigns(self->Terms.n_calls, self->ZeroPoleWeight, g_hits, g_zp_hits, g_last_a, g_last_b, g_last_ao, g_last_bo, g_zpw_bits, VERIF_thrown)
 __CPROVER_ensures(!VERIF_thrown)
 /* completeness + uniqueness: the ghost pair contributes exactly once, to the zero-pole weight or (iff its residue is above 1e-8) to the term list */
-__CPROVER_ensures(g_hits == EXPECTED_TERM)
-__CPROVER_ensures(g_zp_hits == EXPECTED_ZP)
+/* (g_exp_term / g_exp_zp = EXPECTED_TERM / EXPECTED_ZP of the pre-state, see requires; nothing they depend on is assigned) */
+__CPROVER_ensures(g_hits == g_exp_term)
+__CPROVER_ensures(g_zp_hits == g_exp_zp)
 /* the member equals the model: initial value (+) the documented addends of exactly the zero-pole pairs, in iteration order */
 __CPROVER_ensures(ZPW_BITS(self) == g_zpw_bits)
 //@loop 1
@@ -216,7 +209,7 @@ __CPROVER_loop_invariant((AM->gpos >= 0 && index1 == (unsigned long)AM->gouter &
 __CPROVER_decreases(Ainner.m_end - Ainner.m_id)
 //@end
 
-//@harness h_SP_compute enforce=SusceptibilityPart_compute props=C14,C17 min_obl=4000 timeout=900 reach=3
+//@harness h_SP_compute enforce=SusceptibilityPart_compute props=C14,C17 min_obl=5000 timeout=900 reach=3
 void h_SP_compute(void)
 {
   struct SusceptibilityPart *p;
@@ -247,46 +240,11 @@ static inline cplx TermListSP_call_tau(TermListSP *tl, double tau, double beta)
 /* formula pins: exp is an uninterpreted function */
 double __CPROVER_uninterpreted_exp(double);
 #define exp_c(x) __CPROVER_uninterpreted_exp(x)
-static cplx spec_term_tau(SPTerm *t, double tau, double beta)
+static cplx spec_term_tau(SPTerm t, double tau, double beta)
 {
-  if (D_GT(t->Pole, 0.0))
-    return op_div_cplx_double(op_mul_cplx_double(t->Residue, exp_c(D_MUL(D_NEG(tau), t->Pole))), D_SUB(1.0, exp_c(D_MUL(D_NEG(beta), t->Pole))));
-  return op_div_cplx_double(op_mul_cplx_double(t->Residue, exp_c(D_MUL(D_SUB(beta, tau), t->Pole))), D_SUB(exp_c(D_MUL(beta, t->Pole)), 1.0));
-}
-#else
-/* range harness: contract stubs.
- * ASSUMED M1 (IEEE-754 product of two finite numbers): not NaN; sign(a*b) = sign(a)*sign(b) (a zero factor gives +-0);
- * ASSUMED M2 (monotonicity of the correctly rounded product): |a| >= 1e-8 and |b| >= 1e-7  =>  |a*b| >= 9e-16
- *            (fl(1e-8*1e-7) = 1e-15 up to 3 ulp); or the other way round. */
-static inline double abs_c(double x) { return x < 0 ? -x : x; }
-double mul_c(double a, double b)
-{
-  double r = nondet_double();
-  if (d_finite(a) && d_finite(b)) {
-    __CPROVER_assume(r == r);
-    if ((a >= 0 && b >= 0) || (a <= 0 && b <= 0)) __CPROVER_assume(r >= 0);
-    if ((a >= 0 && b <= 0) || (a <= 0 && b >= 0)) __CPROVER_assume(r <= 0);
-    if ((abs_c(a) >= 1e-8 && abs_c(b) >= 1e-7) || (abs_c(a) >= 1e-7 && abs_c(b) >= 1e-8)) __CPROVER_assume(abs_c(r) >= 9e-16);
-  }
-  return r;
-}
-/* the quotient's value is not used by any claim of the range harness; ASSERTED: the denominator is a non-zero number */
-double div_c(double a, double b)
-{
-  __CPROVER_assert(b == b && b != 0.0, "C14: the denominator 1-exp(-beta*Pole) / exp(beta*Pole)-1 is not zero");
-  REACH("div");
-  return nondet_double();
-}
-/* ASSERTED: the argument is a number <= 0 (so that exp cannot overflow).
- * ASSUMED E1 (libm exp, error < 1 ulp): exp(x) >= 0 and not NaN;  x <= 0 => exp(x) <= 1;  x <= -9e-16 => exp(x) < 1. */
-double exp_c(double x)
-{
-  __CPROVER_assert(x == x && x <= 0.0, "C14: every exponent passed to exp is <= 0");
-  double r = nondet_double();
-  __CPROVER_assume(r >= 0.0);
-  if (x <= 0.0) __CPROVER_assume(r <= 1.0);
-  if (x <= -9e-16) __CPROVER_assume(r < 1.0);
-  return r;
+  if (D_GT(t.Pole, 0.0))
+    return op_div_cplx_double(op_mul_cplx_double(t.Residue, exp_c(D_MUL(D_NEG(tau), t.Pole))), D_SUB(1.0, exp_c(D_MUL(D_NEG(beta), t.Pole))));
+  return op_div_cplx_double(op_mul_cplx_double(t.Residue, exp_c(D_MUL(D_SUB(beta, tau), t.Pole))), D_SUB(exp_c(D_MUL(beta, t.Pole)), 1.0));
 }
 #endif
 
@@ -314,7 +272,7 @@ __CPROVER_requires(d_finite(tau) && d_finite(beta) && 0.0 <= tau && tau <= beta 
 #endif
 __CPROVER_assigns()
 #ifndef VERIF_FP_IEEE
-__CPROVER_ensures(C_SAME(__CPROVER_return_value, spec_term_tau(self, tau, beta)))
+__CPROVER_ensures(C_SAME(__CPROVER_return_value, spec_term_tau(*self, tau, beta)))
 #endif
 //@end
 
@@ -342,20 +300,102 @@ __CPROVER_assigns()
 __CPROVER_ensures(C_SAME(__CPROVER_return_value, op_add_cplx_double(TermListSP_call_tau(&self->Terms, tau, self->beta), self->ZeroPoleWeight)))
 //@end
 
-//@harness h_SPTerm_z enforce=SPTerm_call_z props=C14 min_obl=10 timeout=120 reach=1
+/* ---- constructor: establishes what compute() and the evaluation functions require (tolerances 1e-8 as documented in
+ * SusceptibilityPart.h, ZeroPoleWeight = 0, empty term list with Compare(1e-8)/IsNegligible(1e-8), beta of the density matrix)
+ * and stores each argument in the member of the same name (inner/outer are not swapped). */
+static inline void Thermal_ctor1(struct Thermal *self, struct Thermal *o)   /* TRUSTED: implicit copy constructor of Thermal */
+{ self->beta = o->beta; self->MatsubaraSpacing = o->MatsubaraSpacing; }
+typedef struct SPTol { double Tolerance; } SPTol;                              /* Term::Compare / Term::IsNegligible: one double */
+#define SusceptibilityPart_Term_Compare_ctor1(t) ((SPTol){ (t) })
+#define SusceptibilityPart_Term_IsNegligible_ctor1(t) ((SPTol){ (t) })
+static inline TermListSP TermListSP_ctor2(SPTol *c, SPTol *n)                   /* TRUSTED: TermList(compare, is_negligible): empty list */
+{ TermListSP t; t.n_calls = 0; t.id = 0; t.cmp_tol = c->Tolerance; t.neg_tol = n->Tolerance; return t; }
+//@function Pomerol::SusceptibilityPart::SusceptibilityPart(Pomerol::QuadraticOperatorPart const&, Pomerol::QuadraticOperatorPart const&, Pomerol::HamiltonianPart const&, Pomerol::HamiltonianPart const&, Pomerol::DensityMatrixPart const&, Pomerol::DensityMatrixPart const&) as SusceptibilityPart_ctor6
+//@contract
+__CPROVER_requires(__CPROVER_is_fresh(self, sizeof(*self)) && __CPROVER_is_fresh(A, sizeof(*A)) && __CPROVER_is_fresh(B, sizeof(*B)))
+__CPROVER_requires(__CPROVER_is_fresh(HpartInner, sizeof(*HpartInner)) && __CPROVER_is_fresh(HpartOuter, sizeof(*HpartOuter)))
+__CPROVER_requires(__CPROVER_is_fresh(DMpartInner, sizeof(*DMpartInner)) && __CPROVER_is_fresh(DMpartOuter, sizeof(*DMpartOuter)))
+__CPROVER_assigns(*self)
+__CPROVER_ensures(D_SAME(self->MatrixElementTolerance, 1e-8) && D_SAME(self->ReduceResonanceTolerance, 1e-8) && D_SAME(self->ReduceTolerance, 1e-8))
+__CPROVER_ensures(ZPW_BITS(self) == 0)
+__CPROVER_ensures(self->Terms.n_calls == 0 && D_SAME(self->Terms.cmp_tol, 1e-8) && D_SAME(self->Terms.neg_tol, 1e-8))
+__CPROVER_ensures(D_SAME(self->beta, DMpartInner->beta) && C_SAME(self->MatsubaraSpacing, DMpartInner->MatsubaraSpacing))
+__CPROVER_ensures(self->A.elementsRowMajor.values == A->elementsRowMajor.values && self->B.elementsColMajor.values == B->elementsColMajor.values)
+__CPROVER_ensures(self->HpartInner.Eigenvalues.data == HpartInner->Eigenvalues.data && self->HpartOuter.Eigenvalues.data == HpartOuter->Eigenvalues.data)
+__CPROVER_ensures(self->DMpartInner.weights.data == DMpartInner->weights.data && self->DMpartOuter.weights.data == DMpartOuter->weights.data)
+//@end
+
+//@harness h_SP_ctor enforce=SusceptibilityPart_init6 props=C14 min_obl=320 timeout=120 reach=1
+void h_SP_ctor(void)
+{
+  struct SusceptibilityPart *p; struct FieldOperatorPart *a, *b; struct HamiltonianPart *hi, *ho; struct DensityMatrixPart *di, *dO;
+  SusceptibilityPart_init6(p, a, b, hi, ho, di, dO);
+  REACH("exit");
+}
+
+//@harness h_SPTerm_z enforce=SPTerm_call_z props=C14 min_obl=55 timeout=120 reach=1
 void h_SPTerm_z(void) { SPTerm *t; cplx z; SPTerm_call_z(t, z); REACH("exit"); }
 
-//@harness h_SPTerm_tau_pin enforce=SPTerm_call_tau props=C14 min_obl=10 timeout=120 reach=1
+//@harness h_SPTerm_tau_pin enforce=SPTerm_call_tau props=C14 min_obl=73 timeout=120 reach=1
 void h_SPTerm_tau_pin(void) { SPTerm *t; double tau, beta; SPTerm_call_tau(t, tau, beta); REACH("exit"); }
 
-//@harness h_SPTerm_tau_range enforce=SPTerm_call_tau props=C14 defs=-DVERIF_FP_IEEE min_obl=10 timeout=300 reach=2
+//@harness h_SPTerm_tau_range enforce=SPTerm_call_tau props=C14 defs=-DVERIF_FP_IEEE min_obl=68 timeout=120 reach=2
 void h_SPTerm_tau_range(void) { SPTerm *t; double tau, beta; SPTerm_call_tau(t, tau, beta); REACH("exit"); }
 
-//@harness h_SP_call_z enforce=SusceptibilityPart_call_z props=C14 min_obl=10 timeout=120 reach=1
+//@harness h_SP_call_z enforce=SusceptibilityPart_call_z props=C14 min_obl=60 timeout=120 reach=1
 void h_SP_call_z(void) { struct SusceptibilityPart *p; cplx z; SusceptibilityPart_call_z(p, z); REACH("exit"); }
 
-//@harness h_SP_call_n enforce=SusceptibilityPart_call_n props=C14 min_obl=10 timeout=120 reach=1
+//@harness h_SP_call_n enforce=SusceptibilityPart_call_n props=C14 min_obl=95 timeout=120 reach=1
 void h_SP_call_n(void) { struct SusceptibilityPart *p; long n; SusceptibilityPart_call_n(p, n); REACH("exit"); }
 
-//@harness h_SP_of_tau enforce=SusceptibilityPart_of_tau props=C14 min_obl=10 timeout=120 reach=1
+//@harness h_SP_of_tau enforce=SusceptibilityPart_of_tau props=C14 min_obl=60 timeout=120 reach=1
 void h_SP_of_tau(void) { struct SusceptibilityPart *p; double tau; SusceptibilityPart_of_tau(p, tau); REACH("exit"); }
+
+/* =====================================================================================================================
+ * WHAT IS PROVED (for all inputs satisfying the stated type invariants), WHAT IS NOT
+ *
+ * h_SP_compute  (SusceptibilityPart::compute, C14 + C17)
+ *   safety: every InnerIterator index()/value() read is inside the tightly allocated arrays, every getWeight/getEigenValue
+ *     index is inside its vector, no overflow, no exception; termination (decreases on all four loops);
+ *   frame: only the term list (monitor counter) and ZeroPoleWeight are written (plus ghosts);
+ *   soundness of the term list (monitor TermListSP_add_term, every call): iterators on a coincident pair A[n,m], B[m,n] of row n /
+ *     column n; residue bit-equal to (A*B)*(w_n - w_m); pole bit-equal to E_m - E_n; |residue| > 1e-8; !(|pole| < 1e-8);
+ *   soundness of the branch (monitor of std::abs(double) = mon_abs_pole, every call): called only on a coincident pair, with
+ *     the argument bit-equal to E_m - E_n;
+ *   ZeroPoleWeight: a MODEL (ghost g_zpw_bits) starts at the member's value and is advanced by the abs-monitor by
+ *     model := model + (A[n,m]*B[m,n])*w_n exactly when |E_m - E_n| < 1e-8 at that pair; loop invariants + post-condition force
+ *     the member to be bit-equal to the model at every loop head and at exit.  Hence: ZeroPoleWeight(after) = left fold, in
+ *     iteration order, of the documented addend over exactly the zero-pole coincident pairs, starting from ZeroPoleWeight(before)
+ *     (compute() does NOT reset the member: the constructor sets 0 -- h_SP_ctor -- and Susceptibility::compute calls it once);
+ *   completeness + uniqueness (ghost pair = one arbitrary coincident pair): exactly one zero-pole accumulation iff |P| < 1e-8;
+ *     otherwise exactly one add_term iff |residue| > 1e-8; never both.
+ *   NOT proved: anything about TermList (merging of poles within 1e-8, dropping of small sums: trusted container); real-number
+ *     meaning of the sums (doubles are uninterpreted: congruence only); that index()-positions exposed to the monitors are the
+ *     iterators' positions is by construction of the spec-local wrappers of the sparse.h stubs.
+ *   pre-fix tree (git -C /repo show c513d1d^:src/pomerol/SusceptibilityPart.cpp) FAILS: SusceptibilityPart_compute.assertion
+ *     "InnerIterator::index(): read inside the index array" in both chase loops (+ the chase-loop invariants).
+ * h_SP_ctor: tolerances 1e-8, ZeroPoleWeight = +0.0, empty term list with Compare(1e-8)/IsNegligible(1e-8), beta and
+ *   MatsubaraSpacing of DMpartInner, every argument stored in the member of the same name.
+ * h_SPTerm_z, h_SP_call_z, h_SP_call_n, h_SP_of_tau, h_SPTerm_tau_pin: formula pins (bit-equality with the documented expression,
+ *   uninterpreted arithmetic, same association): (-R)/(z-P);  Terms(z) + (|z|<1e-15 ? ZPW*beta : 0);  z_n = MatsubaraSpacing*(double)(2n)
+ *   for |n| < 2^62 (LIMIT: 2n must not overflow);  Terms(tau,beta) + ZPW;  the two-branch imaginary-time form.
+ *   Terms(.) itself is an opaque function of the container (TRUSTED).
+ * h_SPTerm_tau_range (IEEE, stubs/fprange.h): for finite Pole with !(|Pole| < 1e-8) -- which the add_term monitor asserts for every
+ *   stored term --, finite 0 <= tau <= beta and beta >= 1e-7 (LIMIT): every argument of exp is a number <= 0 in both branches and
+ *   both denominators are numbers != 0.  Under assumptions M1, M2 (IEEE product) and E1 (libm exp) of fprange.h.  NOT proved:
+ *   the value (quotient not modelled there), beta < 1e-7 (for beta*|Pole| < 1.1e-16 the denominator IS 0 in double arithmetic:
+ *   exp(-1e-17) == 1.0), tau outside [0,beta].
+ *
+ * MUTANTS (scratch copy of /repo, re-extracted; obligation that failed)
+ *   compute: pre-fix chase loops          -> SusceptibilityPart_compute.assertion "InnerIterator::index(): read inside the index array"
+ *            w_n - w_m -> w_n + w_m       -> TermListSP_add_term.assertion.4 (residue pin), .6
+ *            zero-pole branch disabled    -> TermListSP_add_term.assertion.7 (no term for a zero-energy pole), loop_invariant_step (model, counters)
+ *            ZPW addend with w_m          -> loop_invariant_step.14/.29 (ZeroPoleWeight == model)
+ *            pole = E_n - E_m             -> mon_abs_pole.assertion.4, TermListSP_add_term.assertion.5 (pole = E_m - E_n)
+ *            chase `<` -> `<=`            -> loop_invariant_step.2/.6/.17/.21 of the row loop (ghost pair skipped: counters != expected)
+ *   ctor:    ReduceResonanceTolerance 1e-6 -> postcondition.1;  DMpartInner/Outer swapped -> postcondition.7;  ZeroPoleWeight(1) -> postcondition.2
+ *   Term(z): -R -> R -> SPTerm_call_z.postcondition.1;   Part(z): drop *beta / flip < -> SusceptibilityPart_call_z.postcondition.1
+ *   Part(n): 2n -> 2n+1 -> SusceptibilityPart_call_n.postcondition.1;   of_tau: +ZPW*beta -> SusceptibilityPart_of_tau.postcondition.1
+ *   Term(tau): exp(-tau P) -> exp(tau P): pin postcondition.1 and range exp_c.assertion.1;  Pole>0 -> Pole<0: exp_c.assertion.1, div_c.assertion.1;
+ *            exp(beta P)-1 -> 1-exp(beta P): pin postcondition.1 (survives the range harness: the denominator is still non-zero).
+ */
